@@ -112,7 +112,8 @@ def group_level(R, base, names, prefix, labels, kinds=('$', '><'), p_share=0.0, 
             # an order-0 edge between the copies would contradict that bond after the merge)
             if not subs[g].has_edge(a, b) and not base.has_edge(orig.get(a, a), orig.get(b, b)):
                 subs[g].add_edge(a, b, order=0)
-    upnames = {g: '%s%d' % (prefix, g) for g in range(k)}
+    # (fragment names are not restricted to word characters: ions and block names such as NA+, CL-, PEO-b occur)
+    upnames = {g: '%s%d%s' % (prefix, g, R.choice(['', '', '', '', '', '+', '-', '-b'])) for g in range(k)}
     # a fragment name may be reused on another level: some groups take the name of one of their members
     taken = set(upnames.values())
     for g in range(k):
